@@ -10,7 +10,10 @@
 //	                       function with deferCallSlice when the call has an ellipsis (what the deferred record holds)
 //	wrapRecvAtCreation     genFunctionWrapper binds a receiver read from the script outside the reflect.MakeFunc literal
 //	wrapRecvHeldAtCall     … and reaches the receiver of a record without node (the value held by an interface) inside it
-//	ifaceWrapRecvHeld      genInterfaceWrapper gives its method wrappers such a record (a copy of the converted value)
+//	argTypeSpreadArm       the argument followed by `...` is converted to the variadic parameter's own (slice) type
+//	callArgArms            the ordered arms of the per-argument switch of `call` (which arguments a call with an ellipsis prepares)
+//	hostMethodBindsRecv / bindRecvCopies   a method value of a host value copies an addressable receiver when it is evaluated
+//	ifaceWrapRecvHeld      genInterfaceWrapper(Value) gives its method wrappers such a record (a copy of the converted value)
 //	assign* / return* / default* / nestedReadIdx   index expressions of the result stores per context
 //	wrap* / getFunc*       shape of genFunctionWrapper / getFunc: frame allocation, argument base, `fr.data[lo:hi]`
 //
@@ -224,7 +227,58 @@ func effectOf(body []ast.Stmt) string {
 }
 
 // typeChoice reads `if variadic >= 0 && i+rcvrOffset >= variadic { X = funcType.In(variadic)[.Elem()] } else { X = funcType.In(…) }`.
-func typeChoice(root ast.Node, lhs string) (cmp string, elem string) {
+func typeChoice(root ast.Node, lhs string) (cmp string, elem string, spread string) {
+	spread = "false"
+	// since 0b75d2f: `switch { case n.action == aCallSlice && i+rcvrOffset == variadic: X = funcType.In(variadic);
+	// case variadic >= 0 && i+rcvrOffset >= variadic: X = …Elem(); default: X = funcType.In(i + rcvrOffset) }`
+	if sw := find(root, func(n ast.Node) bool {
+		s, ok := n.(*ast.SwitchStmt)
+		if !ok || s.Tag != nil || len(s.Body.List) == 0 {
+			return false
+		}
+		for _, c := range s.Body.List {
+			cc := c.(*ast.CaseClause)
+			if len(cc.Body) != 1 {
+				return false
+			}
+			as, ok := cc.Body[0].(*ast.AssignStmt)
+			if !ok || len(as.Lhs) != 1 || str(as.Lhs[0]) != lhs {
+				return false
+			}
+		}
+		return true
+	}); sw != nil {
+		cmp, elem = ".unrecognised", "false"
+		cls := sw.(*ast.SwitchStmt).Body.List
+		good := len(cls) == 3
+		if good {
+			c0, c1, c2 := cls[0].(*ast.CaseClause), cls[1].(*ast.CaseClause), cls[2].(*ast.CaseClause)
+			good = len(c0.List) == 1 && nospace(str(c0.List[0])) == "n.action==aCallSlice&&i+rcvrOffset==variadic" &&
+				nospace(str(c0.Body[0])) == lhs+"=funcType.In(variadic)" && len(c1.List) == 1 && c2.List == nil &&
+				(nospace(str(c2.Body[0])) == lhs+"=funcType.In(i+rcvrOffset)" || nospace(str(c2.Body[0])) == lhs+"=funcType.In(rcvrOffset+i)")
+			if good {
+				spread = "true"
+				if be, ok := c1.List[0].(*ast.BinaryExpr); ok && be.Op == token.LAND && str(be.X) == "variadic >= 0" {
+					if c2e, ok := unparen(be.Y).(*ast.BinaryExpr); ok && nospace(str(c2e.X)) == "i+rcvrOffset" && str(c2e.Y) == "variadic" {
+						cmp = cmpOf(c2e.Op)
+					}
+				}
+				switch nospace(str(c1.Body[0])) {
+				case lhs + "=funcType.In(variadic).Elem()":
+					elem = "true"
+				case lhs + "=funcType.In(variadic)":
+					elem = "false"
+				default:
+					cmp = ".unrecognised"
+				}
+			}
+		}
+		if !good || cmp == ".unrecognised" {
+			note("choice of %s: switch not recognised", lhs)
+			cmp = ".unrecognised"
+		}
+		return cmp, elem, spread
+	}
 	n := find(root, func(n ast.Node) bool {
 		is, ok := n.(*ast.IfStmt)
 		if !ok || len(is.Body.List) != 1 {
@@ -235,7 +289,7 @@ func typeChoice(root ast.Node, lhs string) (cmp string, elem string) {
 	})
 	if n == nil {
 		note("no choice of %s", lhs)
-		return ".unrecognised", "false"
+		return ".unrecognised", "false", spread
 	}
 	is := n.(*ast.IfStmt)
 	cmp = ".unrecognised"
@@ -263,7 +317,7 @@ func typeChoice(root ast.Node, lhs string) (cmp string, elem string) {
 		note("%s in the fixed case: %s", lhs, str(is.Else))
 		cmp = ".unrecognised"
 	}
-	return cmp, elem
+	return cmp, elem, spread
 }
 
 func callKind(e ast.Node) string {
@@ -412,6 +466,7 @@ func main() {
 		var outerArms []string
 		arms := "[]"
 		argCmp, argElem, defCmp, defElem := ".unrecognised", "false", ".unrecognised", "false"
+		argSpread := "false"
 		nestedRead := ".unrecognised"
 		if outer == nil {
 			note("the per-argument switch of callBin was not found")
@@ -454,8 +509,12 @@ func main() {
 					arms = "[" + strings.Join(items, ",\n      ") + "]"
 				}
 				dn := &ast.BlockStmt{List: deflt.Body}
-				argCmp, argElem = typeChoice(dn, "argType")
-				defCmp, defElem = typeChoice(dn, "defType")
+				argCmp, argElem, argSpread = typeChoice(dn, "argType")
+				var defSpread string
+				defCmp, defElem, defSpread = typeChoice(dn, "defType")
+				if defSpread == "true" {
+					note("defType has a spread arm")
+				}
 			}
 		}
 
@@ -527,6 +586,123 @@ func main() {
 				note("call: hasVariadicArgs is not `n.action == aCallSlice`")
 			}
 			fvArms = guardedCalls(cl, "callf", "call")
+		}
+		// call: the inner switch that prepares one argument (`default:` arm of the outer switch over the argument's form)
+		callArgArms := "[]"
+		if cl != nil {
+			var inner *ast.SwitchStmt
+			if rs := find(cl, func(n ast.Node) bool {
+				r, ok := n.(*ast.RangeStmt)
+				return ok && str(r.X) == "child" && str(r.Key) == "i" && str(r.Value) == "c"
+			}); rs != nil {
+				for _, st := range rs.(*ast.RangeStmt).Body.List {
+					if sw, ok := st.(*ast.SwitchStmt); ok && sw.Tag == nil {
+						for _, c := range sw.Body.List {
+							if cc := c.(*ast.CaseClause); cc.List == nil {
+								for _, b := range cc.Body {
+									if sw2, ok := b.(*ast.SwitchStmt); ok && sw2.Tag == nil {
+										inner = sw2
+									}
+								}
+							}
+						}
+					}
+				}
+			}
+			if inner == nil {
+				note("call: the per-argument switch was not found")
+			} else {
+				spreadDef := find(cl, func(n ast.Node) bool { return nospace(str(n)) == "spread:=hasVariadicArgs&&i==len(child)-1" }) != nil
+				var items []string
+				for _, c := range inner.Body.List {
+					cc := c.(*ast.CaseClause)
+					g := ".unrecognised"
+					switch {
+					case cc.List == nil:
+						g = ".default"
+					case len(cc.List) == 1:
+						switch nospace(str(cc.List[0])) {
+						case "spread":
+							if spreadDef {
+								g = ".spreadArg"
+							} else {
+								note("call: `spread` is not `hasVariadicArgs && i == len(child)-1`")
+							}
+						case "hasVariadicArgs":
+							g = ".ellipsisCall"
+						case "isInterfaceSrc(arg)&&(!isEmptyInterface(arg)||len(c.typ.method)>0)":
+							g = ".ifaceSrc"
+						case "isInterfaceBin(arg)":
+							g = ".ifaceBin"
+						case "isFuncSrc(arg)":
+							g = ".funcSrc"
+						}
+					}
+					e := ".unrecognised"
+					if len(cc.Body) == 1 {
+						switch nospace(str(cc.Body[0])) {
+						case "values=append(values,genValue(c))":
+							e = ".raw"
+						case "values=append(values,genValueInterface(c))":
+							e = ".boxIface"
+						case "values=append(values,genInterfaceWrapper(c,arg.rtype))":
+							e = ".ifaceWrap"
+						case "values=append(values,genFuncValue(c))":
+							e = ".funcValue"
+						}
+					}
+					if g == ".unrecognised" || e == ".unrecognised" {
+						note("call: argument arm %s", str(cc))
+					}
+					items = append(items, "⟨"+g+", "+e+"⟩")
+				}
+				callArgArms = "[" + strings.Join(items, ", ") + "]"
+			}
+		}
+		// host method values (getIndexBinMethod, getIndexBinElemMethod): `bindRecv(…).Method(m)` binds a copy of an addressable
+		// receiver when the method value is evaluated (5c3ec57); before, `value(f).Method(m)` kept the address of the variable
+		hostBind, bindCopies := "false", "false"
+		{
+			total, bound := 0, 0
+			for _, name := range []string{"getIndexBinMethod", "getIndexBinElemMethod"} {
+				fd := common.FindFunc(f, "", name)
+				if fd == nil {
+					note("%s not found", name)
+					continue
+				}
+				for _, n := range findAll(fd, func(n ast.Node) bool {
+					ce, ok := n.(*ast.CallExpr)
+					if !ok {
+						return false
+					}
+					se, ok := ce.Fun.(*ast.SelectorExpr)
+					return ok && se.Sel.Name == "Method" && len(ce.Args) == 1 && str(ce.Args[0]) == "m"
+				}) {
+					total++
+					x := n.(*ast.CallExpr).Fun.(*ast.SelectorExpr).X
+					if ce, ok := x.(*ast.CallExpr); ok && str(ce.Fun) == "bindRecv" && len(ce.Args) == 1 {
+						bound++
+					}
+				}
+			}
+			switch {
+			case total > 0 && bound == total:
+				hostBind = "true"
+			case bound == 0:
+			default:
+				note("host method values: %d of %d `.Method(m)` receivers go through bindRecv", bound, total)
+			}
+			if br := common.FindFunc(f, "", "bindRecv"); br != nil {
+				l := br.Body.List
+				if len(l) == 4 && nospace(str(l[0])) == "if!v.CanAddr(){returnv}" && nospace(str(l[1])) == "c:=reflect.New(v.Type()).Elem()" &&
+					nospace(str(l[2])) == "c.Set(v)" && nospace(str(l[3])) == "returnc" {
+					bindCopies = "true"
+				} else {
+					note("bindRecv: shape not recognised")
+				}
+			} else if hostBind == "true" {
+				note("bindRecv is used but not declared in interp/run.go")
+			}
 		}
 		// the helper callVariadic
 		cvGuard, cvCmp, cvSub, cvThen, cvZero, cvElse := "false", ".unrecognised", "1000000", ".unrecognised", "false", ".unrecognised"
@@ -892,7 +1068,14 @@ func main() {
 		// with `rv := copyDeferArg(valueInterfaceValue(v))` (the value HELD by the interface, no node) since 32d4f06,
 		// `&receiver{n, v, …}` (the converted expression's node) before
 		ifaceHeld := "false"
-		if gi := common.FindFunc(f, "", "genInterfaceWrapper"); gi != nil {
+		gi := common.FindFunc(f, "", "genInterfaceWrapperValue")
+		if gi == nil {
+			gi = common.FindFunc(f, "", "genInterfaceWrapper") // before ccca582
+		} else if gw0 := common.FindFunc(f, "", "genInterfaceWrapper"); gw0 == nil || len(gw0.Body.List) != 1 ||
+			nospace(str(gw0.Body.List[0])) != "returngenInterfaceWrapperValue(n,typ,genValue(n))" {
+			note("genInterfaceWrapper is not `return genInterfaceWrapperValue(n, typ, genValue(n))`")
+		}
+		if gi != nil {
 			var held, byNode, other int
 			for _, n := range findAll(gi, func(n ast.Node) bool {
 				a, ok := n.(*ast.AssignStmt)
@@ -948,7 +1131,8 @@ func main() {
 		// ---- fingerprints
 		hashes := common.HashTable(fset, f, [][2]string{{"", "callBin"}, {"", "genFunctionWrapper"}, {"", "getFunc"}, {"", "call"},
 			{"", "genInterfaceWrapper"}, {"", "methodByName"}, {"", "getFrame"}, {"", "callVariadic"}, {"", "deferCallSlice"}, {"", "runDeferred"},
-			{"", "copyDeferArg"}})
+			{"", "copyDeferArg"}, {"", "genInterfaceWrapperValue"}, {"", "bindRecv"}, {"", "getIndexBinMethod"}, {"", "getIndexBinElemMethod"},
+			{"", "getIndexBinPtrMethod"}})
 		hashes = strings.TrimSuffix(hashes, "]")
 		for _, file := range []struct {
 			rel   string
@@ -991,10 +1175,14 @@ def facts : Facts :=
     variadicSub := %s,
     argTypeCmp := %s,
     argTypeElem := %s,
+    argTypeSpreadArm := %s,
     defTypeCmp := %s,
     defTypeElem := %s,
     callArms := %s,
     fvArms := %s,
+    callArgArms := %s,
+    hostMethodBindsRecv := %s,
+    bindRecvCopies := %s,
     cvGuardVariadic := %s,
     cvCmp := %s,
     cvSub := %s,
@@ -1031,8 +1219,8 @@ def notes : List String := %s
 def sourceHashes : List (String × String) :=
   %s
 end YaegiVerif.Generated.C07
-`, arms, common.LeanStrList(outerArms), recvGuard, rcvrCond, lo(variadicSub), argCmp, argElem, defCmp, defElem,
-			"["+strings.Join(callArms, ", ")+"]", "["+strings.Join(fvArms, ", ")+"]", cvGuard, cvCmp, lo(cvSub), cvThen, cvZero, cvElse,
+`, arms, common.LeanStrList(outerArms), recvGuard, rcvrCond, lo(variadicSub), argCmp, argElem, argSpread, defCmp, defElem,
+			"["+strings.Join(callArms, ", ")+"]", "["+strings.Join(fvArms, ", ")+"]", callArgArms, hostBind, bindCopies, cvGuard, cvCmp, lo(cvSub), cvThen, cvZero, cvElse,
 			deferCall, deferWrapBin, deferWrapCall, deferWrapKind, deferWrapVariadic, assignSrc, assignDst, retDst, retBase, defDst, nestedRead,
 			wrapFrame, wrapPerCall, recvAtCreation, recvHeldAtCall, ifaceHeld, getFuncPerCall, wrapBase, lo(wrapShift), lo(wLo), wHi, skipShort, lo(gLo), gHi, common.LeanStrList(notes), hashes)
 		return src, nil
